@@ -558,6 +558,11 @@ func (in *Interp) callSSA(caller *frame, callpos token.Pos, fn *ssa.Function, ar
 		}
 		if in.bypass == fn {
 			in.bypass = nil
+		} else if repl, ok := in.cfg.Stubs[fn.String()]; ok && in.w.ex.entry.Pkg != nil {
+			if rf := in.w.ex.entry.Pkg.Func(repl); rf != nil {
+				return in.callSSA(caller, callpos, rf, args, nil)
+			}
+			panic(engineErr("stub function %s not found in harness package", repl))
 		} else if r, handled := in.tryIntrinsic(fr, fn, args); handled {
 			return r
 		}
